@@ -137,6 +137,8 @@ func updateAnchoredOperation(op *operation.AnchoredOperation, sidetreeTxn *txn.S
 	op.TransactionNumber = sidetreeTxn.TransactionNumber
 	// The genesis time of the protocol that was used for this operation
 	op.ProtocolVersion = sidetreeTxn.ProtocolVersion
+	op.CanonicalReference = sidetreeTxn.CanonicalReference
+	op.EquivalentReferences = sidetreeTxn.EquivalentReferences
 
 	return op
 }
